@@ -1427,6 +1427,97 @@ def c11_search(ctx, failing, corr, broken):
     return out
 
 
+# ---------------------------------------------------------------------------------------------------
+# C10
+# ---------------------------------------------------------------------------------------------------
+
+def produces_direction(e):
+    m = e['meta']
+    if m['cls'].startswith(('unit:', 'model:')) or m.get('unit'):
+        return False
+    if m['kind'] in ('ctor', 'cast-ctor') and m['cls'] in ('Direction', 'PlanarDirection'):
+        return True
+    if m['kind'] in ('method', 'static') and m.get('ret') in ('Direction', 'PlanarDirection'):
+        return True
+    return m['kind'] == 'mutator' and m['cls'] in ('Direction', 'PlanarDirection') and m.get('name') == 'Set'
+
+
+def c10_search(ctx, failing, corr, broken):
+    """C10 on the real code: unit length to 4 ulps, same sense, exact zero from the zero vector,
+    bit-identical under power-of-two rescaling of the input."""
+    rng = random.Random(ctx.seed + 10)
+    ents = [e for e in ctx.model if produces_direction(e)]
+    reqs, info = [], []
+    for e in ents:
+        for fmt in (32, 64, 80):
+            inst = e['instances'][0]
+            v = inst['fmts'].get(str(fmt))
+            if v is None:
+                continue
+            n = v['n_in']
+            infm = co.input_formats(v['tree'], n, fmt)
+            simple = e['meta']['kind'] in ('ctor', 'method', 'mutator') and n in (2, 3) or \
+                (e['meta']['kind'] == 'mutator' and n in (4, 6))
+            for trial in range(4 if not broken else 12):
+                lead = rng.randrange(-100, 100) if fmt != 32 else rng.randrange(-25, 26)
+                vals = []
+                for i in range(n):
+                    s, mm, ee = co.random_value(rng, infm[i], 'moderate')
+                    vals.append((s, mm or 1, ee + lead))
+                reqs.append((e['index'], fmt, [co.hex_of(*x) for x in vals], []))
+                info.append((e, fmt, vals, 'base', n, simple))
+                k = rng.randrange(-10, 11)
+                sc = [(s, mm, ee + k) for (s, mm, ee) in vals]
+                reqs.append((e['index'], fmt, [co.hex_of(*x) for x in sc], []))
+                info.append((e, fmt, sc, 'scaled', n, simple))
+            zeros = [(False, 0, 0)] * n
+            reqs.append((e['index'], fmt, [co.hex_of(*x) for x in zeros], []))
+            info.append((e, fmt, zeros, 'zero', n, simple))
+    res, _, _ = ctx.run_native(reqs)
+    out = []
+    last = None
+    for (e, fmt, vals, mode, n, simple), r in zip(info, res):
+        if r is None or r.get('error'):
+            continue
+        label = 'self' if e['meta']['kind'] == 'mutator' else 'r'
+        outs = [c for (l, c) in num_outs(r) if l.startswith(label)]
+        if not outs or any(c in ('nan', 'inf', '-inf') for c in outs):
+            if mode != 'zero' and outs and e['meta']['kind'] != 'cast-ctor':
+                out.append({'kind': 'c10-nonfinite', 'entry': e['id'], 'fmt': fmt, 'index': e['index'],
+                            'inputs': [co.hex_of(*x) for x in vals], 'outputs': outs,
+                            'what': '%s returns a non-finite direction for a finite non-zero in-range vector' % e['id']})
+            continue
+        fr = [co.frac_of_canon(c) for c in outs]
+        nn = sum(t * t for t in fr)
+        p = co.FMT[fmt][0]
+        bad = None
+        if mode == 'zero':
+            if any(c != '0 0' for c in outs):
+                bad = 'the zero vector gives %s, not exactly +0' % outs
+        else:
+            allzero_in = all(m == 0 for (_, m, _) in vals)
+            if nn == 0:
+                if simple and not allzero_in and e['meta']['kind'] != 'cast-ctor':
+                    bad = 'a non-zero vector gives the zero direction'
+            elif abs(nn - 1) > Fraction(8, 2 ** p) * 2:   # |‖d‖² − 1| ≤ 2·(4 ulp) to first order
+                bad = 'squared length is 1 %+.3e, more than four ulps from one' % float(nn - 1)
+            if bad is None and simple and e['meta']['kind'] != 'mutator':
+                for c, (s, m, ee) in zip(outs, vals[:len(outs)]):
+                    if m and (c.startswith('-') != s):
+                        bad = 'component %s does not have the sign of the input component' % c
+            if mode == 'base':
+                last = outs
+            elif mode == 'scaled' and bad is None and last is not None and simple and last != outs \
+                    and e['meta']['kind'] != 'cast-ctor':
+                bad = 'rescaling the input by a power of two changed the direction from %s to %s' % (last, outs)
+        if bad:
+            out.append({'kind': 'c10-direction', 'entry': e['id'], 'fmt': fmt, 'index': e['index'],
+                        'inputs': [co.hex_of(*x) for x in vals], 'outputs': outs, 'what': '%s: %s' % (e['id'], bad)})
+            if len(out) >= 5:
+                break
+    return out
+
+
 def quantity_corr(pred, seed_off, per_quick=2, per_thorough=30):
     def f(ctx):
         sel = [e for e in ctx.model if not e['meta']['cls'].startswith(('unit:', 'model:')) and pred(e)]
@@ -1436,6 +1527,18 @@ def quantity_corr(pred, seed_off, per_quick=2, per_thorough=30):
 
 
 SPECS = {
+    'C10': {
+        'id': 'C10', 'level': 'proof',
+        'lean_targets': ['PhQVerif.Audit.C10'],
+        'checkers': [('C10dir', 'quantityEntries'), ('C10mag', 'quantityEntries')],
+        'correspond': quantity_corr(lambda e: produces_direction(e) or e['meta'].get('name') == 'Magnitude', 10, 6, 200),
+        'search': c10_search,
+        'always_search': True,
+        'assumptions': ['unit length / same sense / rebuild are proved over the reals; the four-ulp bound and '
+                        'bit-exact power-of-two invariance are checked on the real code by the search',
+                        'inherited SetValue/MutableValue of the direction classes are not construction paths '
+                        '(they store their argument verbatim, C17)'],
+    },
     'C11': {
         'id': 'C11', 'level': 'proof',
         'lean_targets': ['PhQVerif.Audit.C11'],
